@@ -42,7 +42,7 @@ pub fn profile(name: &str) -> Profile {
     match name {
         "c01" => base,
         "c04" => Profile { name: "c04", max_pats: 4, la_prob: 0.5, max_len: 40, min_ops: 5, max_ops: 40,
-            w: [8, 0, 0, 0, 2, 0, 0, 0, 0, 0], start_offset: true, drain: false, depth: 2, ..base },
+            w: [8, 0, 2, 1, 2, 0, 0, 0, 0, 0], start_offset: true, drain: false, depth: 2, ..base },
         "c05" => Profile { name: "c05", max_pats: 5, la_prob: 0.6, max_len: 40, min_ops: 5, max_ops: 40,
             w: [10, 0, 2, 0, 1, 0, 0, 0, 0, 0], drain: false, depth: 2, min_pats: 2, ..base },
         "c06" => Profile { name: "c06", max_modes: 5, max_pats: 4, la_prob: 0.1, max_len: 60, min_ops: 20, max_ops: 120,
@@ -61,14 +61,15 @@ pub fn profile(name: &str) -> Profile {
     }
 }
 
-const LIT_POOL: &[&str] = &["a", "b", "c", "x", "0", "1", "_", "-", " ", "é", "€", "😀", "\\n", "\\.", "\\+"];
+// (U+040A and U+4E0A: characters whose low byte is the line feed's)
+const LIT_POOL: &[&str] = &["a", "b", "c", "x", "0", "1", "_", "-", " ", "é", "€", "😀", "\\n", "\\.", "\\+", "Њ", "上"];
 const CLASS_POOL: &[&str] = &[
     "[a-c]", "[b-x]", "[ac]", "[^a]", "[^\\n]", "\\d", "\\w", "\\s", ".", "[0-9a-f]", "[a-c&&b-x]", "[\\w--\\d]",
     "\\pL", "[[:alpha:]]", "[é€]", "[a-cx-z]", "[^\\w\\s]", "\\D", "[\\s--\\n]", "[a-z0-9_]", "[\\u{80}-\\u{10FFFF}]",
     "\\PL", "\\p{Lowercase}", "\\P{Lowercase}", "\\W", "\\S", "[^a-c]", "[A-C]",
 ];
 const INPUT_ALPHABET: &[char] =
-    &['a', 'b', 'c', 'x', 'z', '0', '1', '9', '_', '-', ' ', '\n', 'é', '€', '😀', '!', 'Z', '.', '+', '\t'];
+    &['a', 'b', 'c', 'x', 'z', '0', '1', '9', '_', '-', ' ', '\n', 'é', '€', '😀', '!', 'Z', '.', '+', '\t', 'Њ', '上', '\r'];
 
 fn gen_leaf(r: &mut StdRng) -> String {
     if r.gen_bool(0.55) {
@@ -249,7 +250,7 @@ pub fn record_one(b: &mut Batch, r: &mut StdRng, p: &Profile, modes: &[RealMode]
 
     // build (through the public API, real syntax)
     let sm = crate::parse::to_scanner_modes(modes);
-    let cached = r.gen_bool(0.3);
+    let cached = r.gen_bool(if p.max_modes > 1 { 0.7 } else { 0.3 });
     let built = std::panic::catch_unwind(std::panic::AssertUnwindSafe(|| {
         let bld = scnr::ScannerBuilder::new().add_scanner_modes(&sm);
         if cached { bld.build() } else { bld.build_uncached() }
@@ -660,8 +661,28 @@ pub fn main(args: &[String]) -> i32 {
     let out = &args[3];
     let mut r = StdRng::seed_from_u64(seed ^ 0x5eed_0000);
     let mut b = Batch::new();
+    let mut prev: Option<Vec<RealMode>> = None;
     for t in 0..n {
-        let modes = gen_modes(&mut r, &p);
+        let mut modes = gen_modes(&mut r, &p);
+        // every third configuration with several modes is followed by a twin that differs only in
+        // its transitions (a cache that confuses the two shows in the twin's mode switches)
+        if let Some(pm) = prev.take() {
+            modes = pm;
+            let nm = modes.len();
+            for m in modes.iter_mut() {
+                let mut tr: Vec<(usize, usize)> = vec![];
+                for q in m.pats.iter() {
+                    if r.gen_bool(0.5) {
+                        tr.push((q.tt, r.gen_range(0..nm)));
+                    }
+                }
+                tr.sort();
+                tr.dedup_by_key(|x| x.0);
+                m.trans = tr;
+            }
+        } else if modes.len() > 1 && t % 3 == 0 {
+            prev = Some(modes.clone());
+        }
         let n_texts = if p.max_iters > 1 { r.gen_range(1..=2) } else { 1 };
         let texts: Vec<String> = (0..n_texts).map(|_| gen_input(&mut r, &p)).collect();
         record_one(&mut b, &mut r, &p, &modes, &texts, t + 1);
